@@ -8,7 +8,7 @@ from vlib import render as RR
 
 ID = "C04"
 # look-alikes of prelude names (vlib/defs.py HOSTILE) this check's derives are immune to on the unchanged tree
-HOSTILE_OK = ['Default', 'From', 'Into', 'Result', 'Ok', 'AsRef', 'Send', 'PhantomData', 'IterGet', 'm_matches', 'm_assert', 'm_fmt', 'c_binders']
+HOSTILE_OK = ['Default', 'From', 'Into', 'Result', 'Ok', 'AsRef', 'Send', 'PhantomData', 'IterGet', 'm_matches', 'm_assert', 'm_fmt', 'c_binders', 'ByValue']
 PROP_FILE = "Props/C04.v"
 RULE = ("enums with 0-10 variants, each variant independently unit / tuple (1-3 fields) / named (1-3 fields) and enabled / "
         "disabled: EVERY placement of disabled variants for up to 6 variants (all 2^n masks; quick: up to 5), seeded random beyond; "
